@@ -195,6 +195,19 @@ CHECKS = {
             'precision, two-complement widths <= 8-10 and small fixed-point formats.',
             'TLC evaluation of an exact-rational format specification over logged helper calls',
             'DESIGN.md section 4, C12'),
+    'C13': ('model_checking',
+            'Design level: the adder algorithm as py4hw builds it (absolute-compare swap, exponent difference, alignment, add/subtract, '
+            'leading-zero normalisation, exponent adjust) is run by TLC over ALL pairs of normal operands of a scaled format (3,2) / '
+            '(4,3) and judged by the statement predicates (sign of the exact sum, error < 2 ulp of the larger operand, '
+            'commutativity); a too narrow exponent-difference wire is the model negative control. Code level: the real 32-bit '
+            'FPComparator_SP (plain/absolute), FPMult_SP, FPAdder_SP, FPtoInt_SP, InttoFP_SP are simulated on a structured operand '
+            'table (exponent gaps 0..80, boundary mantissas, sign combinations, close magnitudes of opposite sign, significand '
+            'products/sums at rounding and carry boundaries, powers of two +-1, the 2^31 neighbourhood, seeded random integers) and '
+            'judged by TLC with the same predicates over exact dyadic rationals (FPBlocks.tla, Trace_FP).',
+            'exhaustive only for the scaled adder model; the 32-bit blocks are judged on a finite structured table, not on all 2^64 '
+            'operand pairs; finite normal operands and normal exact results only.',
+            'TLC model checking of a scaled algorithm model plus TLC evaluation of exact-rational error-bound predicates on recorded block outputs',
+            'DESIGN.md section 4, C13'),
 }
 
 PENDING = {}
